@@ -226,6 +226,15 @@ def validateVariantFields (input : Variant) (dta : DataTypeAttrs) (errors : Erro
     byKind.foldl (fun es x => variantNamePass input x.1 x.2 es) errors
   else errors
 
+/-- a `#[parent(..)]` list that a From conversion has to construct needs the member's type to be a path -/
+def parentNeedsType (byKind : List (TraitAttrCore × Kind)) (p : ParentAttr) : Bool :=
+  p.childFields.isSome && byKind.any (fun x => x.2.isFrom && (match p.containerTy with | none => true | some t => x.1.ty == t))
+
+def parentTypePass (f : Field) (byKind : List (TraitAttrCore × Kind)) (es : Errors) : Errors :=
+  if f.ty.isNone && f.attrs.parentAttrs.any (parentNeedsType byKind) then
+    es.insert ("Type of member " ++ f.member.str ++ " should be a path to a struct: #[parent(...)] constructs it in 'from' conversions.")
+  else es
+
 /-- entries of struct-level and variant-level `#[ghosts(..)]` name members: a destructuring pattern is reported -/
 def ghostPatternPass (msg : String) (g : GhostData) (es : Errors) : Errors :=
   match g.ghostIdent with
@@ -239,7 +248,7 @@ def validateMember (input : DataType) (isEnum : Bool) (typePaths : List TypePath
   let es := validateDedicatedMemberAttrs (ma.attrs.map (·.attr.containerTy)) none typePaths es
   let es := validateDedicatedMemberAttrs (ma.ghostAttrs.map (·.attr.containerTy)) none typePaths es
   let es := match member with
-    | .field _ =>
+    | .field f =>
       let es := barkAtMemberAttr ma.litAttrs.length "literal" es
       let es := barkAtMemberAttr ma.patAttrs.length "pattern" es
       let es := barkAtMemberAttr ma.typeHintAttrs.length "type_hint" es
@@ -248,7 +257,8 @@ def validateMember (input : DataType) (isEnum : Bool) (typePaths : List TypePath
       let es := barkAtMemberAttr (ma.ghostsAttrs.filter fun x => !x.appl.get .ownedInto && x.appl.get .refInto).length "ghosts_ref" es
       let es := validateDedicatedMemberAttrs (ma.parentAttrs.map (·.containerTy)) (some "parent") typePaths es
       let named := match input with | .struct s => s.namedFields | .enum _ => false
-      validateParentAttrs named ma.parentAttrs byKind es
+      let es := validateParentAttrs named ma.parentAttrs byKind es
+      parentTypePass f byKind es
     | .variant v =>
       let es := barkAtMemberAttr ma.parentAttrs.length "parent" es
       let es := (ma.ghostsAttrs.flatMap (·.attr.ghostData)).foldl (fun es g => ghostPatternPass "Variant-level #[ghosts(...)] should name a member of the other type's variant, not a pattern." g es) es
